@@ -156,7 +156,7 @@ def run_impl(h, cases):
         else:
             vecs.append({"src": c.prog["src"]})
     # one OS thread per shard: the programs are sequential and 16 shards x GOMAXPROCS=16 only thrash
-    res = vlib.run_harness(h, "c27", vecs, shards=16, env_extra={"GOMAXPROCS": "2"})
+    res = vlib.run_harness(h, "c27", vecs, shards=16, env_extra={"GOMAXPROCS": "2"}, timeout=3600)
     for c, r in zip(cases, res):
         c.impl = r
 
